@@ -49,6 +49,44 @@ RUN_CORPUS = [
 ]
 
 
+# every register a script can load, USED by the first command and loaded only afterwards: the
+# first command of any run has to see the register's initial value, whatever an earlier run of the
+# same job left behind
+REGISTER_POP = [
+    {'label': 'Lamp', 'group': 'G', 'location': 'L', 'kind': 'plain', 'color': [100, 200, 300, 3500],
+     'power': 0},
+    {'label': 'Strip', 'group': 'G', 'location': 'L', 'kind': 'multizone', 'color': [1, 2, 3, 3500],
+     'power': 0, 'zones': [[10 * z, 20, 30, 3500] for z in range(8)]},
+    {'label': 'Candle', 'group': 'G', 'location': 'L', 'kind': 'matrix', 'color': [5, 6, 7, 3500],
+     'power': 0, 'height': 6, 'width': 5, 'cells': [[c, 2 * c, 3 * c, 3500] for c in range(30)]},
+]
+REGISTER_CORPUS = [
+    'set "Lamp" hue 120 saturation 100 brightness 50 kelvin 2700',
+    'set "Lamp" duration 3 time 2',
+    'set "Lamp" wait time 4 duration 1.5',
+    'set "Lamp" units raw hue 500 saturation 600 brightness 700 kelvin 3000 duration 800 time 900',
+    'print hue print saturation print brightness print kelvin print duration print time '
+    'units raw hue 9 saturation 8 brightness 7 kelvin 3000 duration 5 time 4',
+    'print red print green print blue units rgb red 10 green 20 blue 30 set "Lamp"',
+    'set "Candle" row 0 hue 240 saturation 80 brightness 40 kelvin 3500 set default',
+    'hue 120 saturation 100 brightness 50 kelvin 2700 set "Candle" row 0 '
+    'hue 240 saturation 80 brightness 40 kelvin 3500 set default',
+    'hue 120 saturation 100 brightness 50 kelvin 2700 set "Candle" column 1 2 '
+    'hue 240 set default set "Candle" row 1 column 0',
+    'hue 30 saturation 40 brightness 50 kelvin 2700 set "Candle" '
+    'set "Candle" row 1 2 column 3 set default',
+    'hue 30 saturation 40 brightness 50 kelvin 2700 set "Strip" set "Strip" zone 1 3',
+    'hue 30 saturation 40 brightness 50 kelvin 2700 set "Strip" zone 2 set "Strip" set "Lamp"',
+    'hue 30 saturation 40 brightness 50 kelvin 2700 set "Candle" row 2 set "Candle" set "Lamp" '
+    'set "Candle" column 4',
+    'on "Lamp" set "Lamp" off "Lamp" hue 5 on all',
+    'get "Lamp" print hue hue 77 set "Lamp" get "Strip" print hue get "Candle" print hue',
+    'define f begin return 5 end print 1 [f] assign v [f] print v',
+    'set "Candle" begin stage row 0 hue 200 saturation 50 brightness 60 kelvin 3000 stage row 1 2 '
+    'column 1 3 end set default set "Candle" row 5',
+]
+
+
 def compile_result(parser, text):
     try:
         ok = parser.parse(text)
@@ -170,11 +208,11 @@ def run_histories(chk, stats):
     from bardolph.controller.script_job import ScriptJob
     rng = chk.rng
     n = 500 if chk.thorough else 80
-    corpus = list(RUN_CORPUS)
+    corpus = [(t, None) for t in RUN_CORPUS] + [(t, REGISTER_POP) for t in REGISTER_CORPUS]
     for i in range(n + len(corpus)):
         if corpus:
-            text = corpus.pop()
-            pop = progs.population(rng)
+            text, pop = corpus.pop()
+            pop = copy.deepcopy(pop) if pop is not None else progs.population(rng)
         else:
             # every third script defines routines inside if / else / repeat bodies: the loader
             # then has jumps to relocate around the routine, the one piece of the compiled program
